@@ -1276,7 +1276,10 @@ def _value_only_read(prog: Program, g: FuncInfo, node: ast.AST, depth: int) -> b
         if par.attr in READ_ATTRS:
             return True
         call = getattr(par, "_parent", None)
-        return False if isinstance(call, ast.Call) and call.func is par else isinstance(par.ctx, ast.Load)
+        if isinstance(call, ast.Call) and call.func is par:
+            return False
+        # a component of the cached object (`ws.buffer`): what happens to it happens to the cached object
+        return isinstance(par.ctx, ast.Load) and _value_only_read(prog, g, par, depth)
     if isinstance(par, ast.Subscript) and par.value is node:
         return isinstance(par.ctx, ast.Load)
     if isinstance(par, (ast.BinOp, ast.UnaryOp, ast.Compare, ast.BoolOp, ast.IfExp, ast.JoinedStr, ast.FormattedValue, ast.comprehension, ast.For, ast.If, ast.While, ast.Expr, ast.Starred)):
